@@ -1,0 +1,21 @@
+//go:build verif
+
+package operator
+
+import (
+	"maps"
+	"time"
+)
+
+// Accessors for the verification harness (/verif, property C11). Compiled only
+// with -tags verif.
+
+// VerifWatermark reports the registry's cached composite watermark (the value
+// SetTimer guards on and processEventBatch hands to the handler).
+func (r *TimerRegistry) VerifWatermark() time.Time { return r.watermark }
+
+// VerifUpstreams returns a copy of the latest watermark per upstream sender.
+func (r *TimerRegistry) VerifUpstreams() map[string]time.Time { return maps.Clone(r.upstreams) }
+
+// VerifTimerRegistry exposes the operator's timer registry (nil before deploy).
+func (o *Operator) VerifTimerRegistry() *TimerRegistry { return o.timerRegistry }
